@@ -244,6 +244,12 @@ def check_big_writes(ck, recs):
         elif op == 8:
             payload = bytes(int(v) for v in r["vz"])
             exp = key + uvarint(len(payload)) + payload
+        elif op in (11, 12):
+            import unicodedata
+            want = [unicodedata.normalize("NFC", bytes.fromhex(x).decode("utf-8")).encode("utf-8") for x in r["vb"]]
+            exp = b"".join(key + uvarint(len(x)) + x for x in want)
+            if r.get("back_ok") and r.get("back_vb") is not None and [bytes.fromhex(x) for x in r["back_vb"]] != want:
+                r = dict(r, back_ok=False)
         else:
             exp = b"".join(key + uvarint(len(x) // 2) + bytes.fromhex(x) for x in r["vb"])
         if not r.get("back_ok") or exp.hex() != r["out"]:
